@@ -1,4 +1,4 @@
-import Sozu.State.Lemmas
+import Sozu.State.Diff
 /-
 C05 / C06 / C07 — property theorems about the model of `ConfigState`
 (`Sozu/State/Model.lean`). Only property statements (`C05_*`, `C06_*`, `C07_*`),
@@ -415,6 +415,70 @@ theorem C06_diff_reaches_target_reachable_partial (env : Env) (csA csB : List Cm
   C06_diff_reaches_target_partial env _ _ (wf_run env csA St.init (wf_init env))
     (wf_run env csB St.init (wf_init env)) t ht
 
+section
+attribute [local irreducible] diff run
+
+/-- **C06 (every command of the difference is accepted), well-formed states.** Under the three
+    hypotheses that exclude the open findings — backend ids unique per cluster in `A` and `B` (F4),
+    tcp/udp front addresses unique per cluster in `A` (F62), equal fingerprints on an address carry
+    equal certificates (F63) — the instance holding `A` accepts every command of `diff A B`, one
+    after the other, each in the state left by the previous ones. -/
+theorem C06_diff_accepted_of_wf (env : Env) (A B : St) (hA : WF env A) (hB : WF env B)
+    (huA : UniqueBackendIds A) (huB : UniqueBackendIds B) (hfA : UniqueFrontAddr A) (hag : CertContentAgree A B) :
+    allOk env A (diff A B) = true := by
+  apply allOk_of_foldTO env _ A (diff_has_target A B)
+  intro t
+  obtain ⟨v', h, _⟩ := diff_entry env A B hA hB huA huB hfA hag t
+  rw [h]
+
+/-- **C06 (diff reaches the target), well-formed states, every map.** Under the same three
+    hypotheses, replaying `diff A B` on `A` yields `B`: every entry of every map — listeners with
+    their activation, clusters, backends (as sorted lists), http/https fronts, tcp/udp fronts (as
+    multisets), certificates — up to empty buckets. -/
+theorem C06_diff_reaches_target_of_unique_wf (env : Env) (A B : St) (hA : WF env A) (hB : WF env B)
+    (huA : UniqueBackendIds A) (huB : UniqueBackendIds B) (hfA : UniqueFrontAddr A) (hag : CertContentAgree A B) :
+    EquivP (run env A (diff A B)) B := by
+  intro t
+  obtain ⟨v', h, he⟩ := diff_entry env A B hA hB huA huB hfA hag t
+  have h2 : look (run env A (diff A B)) t = (foldTO env t (look A t, true) (diff A B)).1 := by
+    rw [look_run env (diff A B) A t]
+    exact (foldTO_fst env t (diff A B) (look A t) true).symm
+  rw [h2, h]
+  exact he
+
+/-- **C06 (accepted), reachable configurations.** -/
+theorem C06_diff_accepted (env : Env) (csA csB : List Cmd)
+    (huA : UniqueBackendIds (run env St.init csA)) (huB : UniqueBackendIds (run env St.init csB))
+    (hfA : UniqueFrontAddr (run env St.init csA))
+    (hag : CertContentAgree (run env St.init csA) (run env St.init csB)) :
+    allOk env (run env St.init csA) (diff (run env St.init csA) (run env St.init csB)) = true :=
+  C06_diff_accepted_of_wf env (run env St.init csA) (run env St.init csB)
+    (wf_run env csA St.init (wf_init env)) (wf_run env csB St.init (wf_init env)) huA huB hfA hag
+
+/-- **C06 (diff reaches the target), reachable configurations, every map.** For any two
+    configurations reachable by command sequences and satisfying the three hypotheses, the
+    difference from `A` to `B` replayed on `A` leaves exactly `B` (empty buckets and the order
+    inside a cluster's tcp/udp front list aside). -/
+theorem C06_diff_reaches_target_of_unique (env : Env) (csA csB : List Cmd)
+    (huA : UniqueBackendIds (run env St.init csA)) (huB : UniqueBackendIds (run env St.init csB))
+    (hfA : UniqueFrontAddr (run env St.init csA))
+    (hag : CertContentAgree (run env St.init csA) (run env St.init csB)) :
+    EquivP (run env (run env St.init csA) (diff (run env St.init csA) (run env St.init csB))) (run env St.init csB) :=
+  C06_diff_reaches_target_of_unique_wf env (run env St.init csA) (run env St.init csB)
+    (wf_run env csA St.init (wf_init env)) (wf_run env csB St.init (wf_init env)) huA huB hfA hag
+
+end
+
+/-- non-vacuity: two reachable configurations satisfying the three hypotheses, differing in a
+    backend, a tcp front and a certificate -/
+example :
+    let A := run envEx St.init [.addBackend { cluster := 1, id := 2, addr := 4, sticky := none, weight := none, backup := none },
+      .addTcpF { cluster := 1, addr := 4, tags := 0 }, .addCert 7 (certEx 0)]
+    let B := run envEx St.init [.addBackend { cluster := 1, id := 2, addr := 5, sticky := none, weight := some 3, backup := none },
+      .addTcpF { cluster := 1, addr := 5, tags := 1 }, .addCert 7 (certEx 1)]
+    allOk envEx A (diff A B) = true ∧ (diff A B).length = 6 ∧
+    look (run envEx A (diff A B)) (.backends 1) = look B (.backends 1) := by decide
+
 /-! ## C05 — a configuration survives every save / replay path unchanged -/
 
 /-- **every reachable configuration is well-formed**: `dispatch` preserves `WF` (one binding per
@@ -496,5 +560,37 @@ example :
     look (run envEx St.init (generateRequests s)) (.certs 7) = look s (.certs 7) ∧
     allOk envEx St.init (generateRequests s) = true ∧
     (dispatch envEx s (.replaceCert 7 (some 1) (certEx 9))).2 = false := by decide
+
+/-- **C05 (`generate_requests` emits every stored entry exactly once).** For a well-formed state,
+    the requests addressing entry `t` are, in order, exactly the request group of the entry stored
+    under `t` — nothing when no entry is stored — and every generated request addresses an entry:
+    no entry is dropped, none is emitted twice, nothing else is emitted. -/
+theorem C05_generate_each_entry_once (env : Env) (s : St) (hs : WF env s) :
+    (∀ t, (generateRequests s).filter (fun c => decide (tgt c = some t)) =
+        match s.find? (fun e => e.1 = t) with
+        | some e => genEntry e
+        | none => []) ∧
+    ∀ c ∈ generateRequests s, (tgt c).isSome = true :=
+  ⟨filter_generate env s hs, generate_has_target env s hs⟩
+
+/-- **C05 (the encodings agree, model level).** The request list depends on the configuration
+    only: two well-formed states holding the same entries in another iteration order generate
+    request lists that present the same requests, in the same order, to every entry; replayed on
+    an empty instance they give the same configuration, accepted both times. (The four encodings
+    carry this list — as protobuf, as JSON lines, in memory — or the maps themselves.) -/
+theorem C05_encodings_agree (env : Env) (s s' : St) (hs : WF env s) (hs' : WF env s')
+    (hp : ∀ e, e ∈ s ↔ e ∈ s') :
+    (∀ t, (generateRequests s').filter (fun c => decide (tgt c = some t)) =
+          (generateRequests s).filter (fun c => decide (tgt c = some t))) ∧
+    Same (run env St.init (generateRequests s')) (run env St.init (generateRequests s)) := by
+  have h1 : ∀ t, (generateRequests s').filter (fun c => decide (tgt c = some t)) =
+      (generateRequests s).filter (fun c => decide (tgt c = some t)) := by
+    intro t
+    rw [filter_generate env s' hs' t, filter_generate env s hs t, find_perm s s' hs.1 hs'.1 hp t]
+  exact ⟨h1, C05_order_free env St.init _ _ h1⟩
+
+example : (generateRequests [(.httpsL 7, .hl httpsEx), (.cluster 1, .cluster { id := 1, hc := none, rest := 0 })]).filter
+    (fun c => decide (tgt c = some (.httpsL 7))) = [.addHttpsL httpsEx, .activate (some .https) 7] := by decide
+
 
 end Sozu.State
